@@ -340,18 +340,19 @@ def run(ctx, n_sim=None, n_build=None, n_neg=None):
         ctx.assumptions.append("multi-module projects skipped (VERIF_SKIP_MODPROJ=1)")
         return {}
     quick = ctx.quick
-    n_sim = n_sim or (160 if quick else 1200)
-    n_build = n_build if n_build is not None else ((20 if quick else 160) if ctx.prop in ("C01", "C02") else 0)
-    n_neg = n_neg if n_neg is not None else ((60 if quick else 500) if ctx.prop in ("C03", "C14") else 0)
+    # thorough sizes = the sizes of the exploration runs the catalogue of multi-module defects was drawn from
+    n_sim = n_sim or (160 if quick else 500)
+    n_build = n_build if n_build is not None else ((20 if quick else 70) if ctx.prop in ("C01", "C02") else 0)
+    n_neg = n_neg if n_neg is not None else ((60 if quick else 300) if ctx.prop in ("C03", "C14") else 0)
     rnd = common.rng(ctx, "modproj")
     inv, rows = gen_rows(ctx, n_sim)
-    decls, bases = base_cases(ctx, rnd, 10 if quick else 30)
+    decls, bases = base_cases(ctx, rnd, 10 if quick else 14)
     # most of the build budget goes to projects that carry no root-cause tag of a catalogued multi-module defect
     # (that is where a NEW defect is visible); the rest keeps the catalogued ones under observation
     bad = [f["tags"] for f in ctx.findings.get("findings", []) if str(f.get("signature", "")).startswith("mod:") and "tags" in f]
     benign = [r for r in rows if not any(all(common.tag_in(t, r["feats"]) for t in ts) for ts in bad)]
     other = [r for r in rows if r not in benign]
-    n_pos = max(n_build, 40 if quick else 300)
+    n_pos = max(n_build, 40 if quick else 100)
     pb, neg_b = stratified(benign, rnd, n_pos)
     po, neg_o = stratified(other, rnd, n_pos)
     k = (n_build * 7) // 10
